@@ -757,16 +757,19 @@ class Emitter:
                 # `x[..]`: the whole slice (cannot panic)
                 return k(base, bty, env1)
             if e.idx.kind == "range":
-                sl_fn, sl_ty = "slice", bty
+                sl_fn, sl_ty, sl_len = "slice", bty, "len"
                 if bty[0] == "struct" and self.v["structs"][bty[1]].get("index_range"):
                     # optional struct key `index_range`: (slicing function, type of the slice)
                     sl_fn, sl_ty = self.v["structs"][bty[1]]["index_range"]
+                    # optional struct key `index_len`: the length an open upper bound `&s[a..]` stands for (a str held as
+                    # its code points: the BYTE length, not the length of the list)
+                    sl_len = self.v["structs"][bty[1]].get("index_len", "len")
 
                 def with_lo(lo, env2):
                     def with_hi(hi, env3):
                         return self.bind("%s %s %s %s" % (sl_fn, base, lo, hi), sl_ty, env3, k, hint="sl")
                     if e.idx.hi is None:
-                        return with_hi("(len %s)" % base, env2)
+                        return with_hi("(%s %s)" % (sl_len, base), env2)
                     if e.idx.incl:
                         return self.expr(e.idx.hi, env2, lambda h, _t, env3: with_hi("(%s + 1)" % h, env3))
                     return self.expr(e.idx.hi, env2, lambda h, _t, env3: with_hi(h, env3))
